@@ -746,6 +746,39 @@ func (pw *pathWalker) finish(s *pwState, end string, ret *ssa.Return) {
 	pw.paths = append(pw.paths, s.p)
 }
 
+// normCond: the condition a branch really depends on -- negations stripped, and a comparison of a
+// bool with a bool this path knows (b == true, b != flag with flag constant here) reduced to b.
+func (p *pwPath) normCond(v ssa.Value) (cond ssa.Value, neg bool) {
+	cond = v
+	for i := 0; i < 6; i++ {
+		c, n := stripNot(p.resolve(cond))
+		cond, neg = p.resolve(c), neg != n
+		bo, ok := cond.(*ssa.BinOp)
+		if !ok || (bo.Op != token.EQL && bo.Op != token.NEQ) || !isBasicKind(bo.X.Type(), types.Bool) {
+			break
+		}
+		var other ssa.Value
+		var k constant.Value
+		if c, ok := p.constOf(bo.Y); ok && c.Kind() == constant.Bool {
+			other, k = bo.X, c
+		} else if c, ok := p.constOf(bo.X); ok && c.Kind() == constant.Bool {
+			other, k = bo.Y, c
+		}
+		if other == nil {
+			break
+		}
+		if _, bothConst := p.constOf(other); bothConst {
+			break // folds as a whole
+		}
+		// other == k  is other when k, !other otherwise; != the reverse
+		if constant.BoolVal(k) != (bo.Op == token.EQL) {
+			neg = !neg
+		}
+		cond = other
+	}
+	return cond, neg
+}
+
 // run advances one state until it ends or forks; returns the successor states.
 func (pw *pathWalker) run(s *pwState) []*pwState {
 	for {
@@ -1119,10 +1152,7 @@ func (pw *pathWalker) run(s *pwState) []*pwState {
 						if !r1 {
 							exit = 1
 						}
-						cond, neg := stripNot(s.p.resolve(x.Cond))
-						cond = s.p.resolve(cond)
-						c2, n2 := stripNot(cond)
-						cond, neg = c2, neg != n2
+						cond, neg := s.p.normCond(x.Cond)
 						truth := (exit == 0) != neg
 						known := false
 						if c, ok := s.p.constOf(cond); ok && c.Kind() == constant.Bool {
@@ -1150,10 +1180,7 @@ func (pw *pathWalker) run(s *pwState) []*pwState {
 						goto nextBlock
 					}
 				}
-				cond, neg := stripNot(s.p.resolve(x.Cond))
-				cond = s.p.resolve(cond)
-				c2, n2 := stripNot(cond)
-				cond, neg = c2, neg != n2
+				cond, neg := s.p.normCond(x.Cond)
 				if c, ok := s.p.constOf(cond); ok && c.Kind() == constant.Bool {
 					t := constant.BoolVal(c) != neg
 					s.pred, s.idx = b, 0
